@@ -108,7 +108,7 @@ func (c *admConn) written() int {
 // returned), "done" when the goroutine running the session has finished, and
 // "timeout" otherwise.
 func (c *admConn) waitIdle(done <-chan struct{}) string {
-	deadline := time.Now().Add(admWait)
+	deadline := time.Now().Add(admWaitDur())
 	for {
 		select {
 		case <-done:
@@ -182,7 +182,7 @@ func (n *admNotify) from(i int) []admEvent {
 // waitPull waits until a relay-pull notification for the stream appears at or
 // after position from.
 func (n *admNotify) waitPull(from int, stream string) (admEvent, bool) {
-	deadline := time.Now().Add(admWait)
+	deadline := time.Now().Add(admWaitDur())
 	for {
 		n.mu.Lock()
 		for _, e := range n.events[from:] {
@@ -272,7 +272,7 @@ func (l *admListener) waitConn() (net.Conn, bool) {
 	select {
 	case c := <-l.pending:
 		return c, true
-	case <-time.After(admWait):
+	case <-time.After(admWaitDur()):
 		return nil, false
 	}
 }
